@@ -64,6 +64,22 @@ func (i *interpreter) fConcrete(f *FV) (float64, bool) {
 	return 0, false
 }
 
+// fApprox returns the nearest float64 of a fully constant FV (for formatting and for models that
+// need a concrete argument).
+func (i *interpreter) fApprox(f *FV) (float64, bool) {
+	if !f.Nan.IsConst() || !f.Inf.IsConst() || !f.V.IsConst() {
+		return 0, false
+	}
+	if f.Nan.IsTrue() {
+		return math.NaN(), true
+	}
+	if f.Inf.IsTrue() {
+		return math.Inf(f.V.R.Sign()), true
+	}
+	x, _ := f.V.R.Float64()
+	return x, true
+}
+
 func (i *interpreter) fSimp(f *FV) value {
 	if x, ok := i.fConcrete(f); ok {
 		return x
@@ -438,4 +454,37 @@ func (i *interpreter) mathMaxMin(x, y value, isMax bool) value {
 	}
 	nan := c.Or(a.Nan, b.Nan)
 	return i.fSimp(&FV{Nan: nan, Inf: c.And(c.Not(nan), c.Ite(pickA, a.Inf, b.Inf)), V: c.Ite(pickA, a.V, b.V)})
+}
+
+// exactFloatOp keeps concrete float arithmetic consistent with the exact-real semantics of
+// symbolic floats: when the IEEE result of + - * / on two finite doubles is not exact, the
+// result is kept as an exact rational constant instead of the rounded double.
+func (i *interpreter) exactFloatOp(op token.Token, x, y float64) (value, bool) {
+	switch op {
+	case token.ADD, token.SUB, token.MUL, token.QUO:
+	default:
+		return nil, false
+	}
+	if x != x || y != y || math.IsInf(x, 0) || math.IsInf(y, 0) {
+		return nil, false
+	}
+	if op == token.QUO && y == 0 {
+		return nil, false
+	}
+	rx, ry := new(big.Rat).SetFloat64(x), new(big.Rat).SetFloat64(y)
+	r := new(big.Rat)
+	switch op {
+	case token.ADD:
+		r.Add(rx, ry)
+	case token.SUB:
+		r.Sub(rx, ry)
+	case token.MUL:
+		r.Mul(rx, ry)
+	case token.QUO:
+		r.Quo(rx, ry)
+	}
+	if f, exact := r.Float64(); exact {
+		return f, true
+	}
+	return i.finite(i.ctx.RealC(r)), true
 }
